@@ -130,7 +130,7 @@ def build_world(cfg):
     max_level = ref_sys[0][-1][1]
     sign = 1.0 if cfg["mode"] == "min" else -1.0
     perms = {int(k): tuple(v) for k, v in cfg["perms"].items()}
-    table = table_from_perms(cfg["T"], max_level, perms, sign)
+    table = table_from_perms(cfg["T"], max_level, perms, sign, zero_rank=cfg.get("zero_rank"))
     mra = "epochs" if cfg.get("use_mra", True) else None
     spec = dict(W=cfg["W"], T=cfg["T"], R=max_level, table=table, brackets=0, max_resource_attr=mra,
                 scratch=cfg.get("scratch", False), fail_budget=cfg.get("F", 0))
@@ -181,6 +181,7 @@ def configs(tier, seed):
                                    use_mra=(i % 2 == 0), scratch=(i % 2 == 1))
                         if len(ref_sys[0]) > 1:
                             cfg["perms"][str(ref_sys[0][1][1])] = tuple(reversed(range(T))) if (len(out) % 2) else tuple(range(T))
+                        cfg["zero_rank"] = [None, T - 1, 1][len(out) % 3]
                         cfg["max_states"] = 4000 if tier == "quick" else 50000
                         out.append(cfg)
     # DEHB: structural subset
